@@ -12,6 +12,8 @@
   NOT proved (and false as a general statement): "each rule reports in the chain what it reports alone". The children
   of a node at which SOME member raises `SkipNode` are visited by nobody, so another member loses the reports it would
   make inside that sub-tree (and its collectors lose what they would record there); see the note at the end.
+  What IS true and proved (`Props/C06_chain.lean: chain_silent_iff_alone`, `chainM_silent_iff_alone`): the chain records
+  NO error iff every member alone records none - a skipping member has just reported (`skip_reports`).
 -/
 import PyGqlModel.Lemmas.ValidateTyped
 import PyGqlModel.Lemmas.ValidateWalkG
@@ -139,6 +141,9 @@ and a wrong field below is hidden in the same way). What does hold, and is check
 of the rules run alone. A proof needs (a) the frame property of the 26 rules (each reads and writes only its own part
 of `RS`), (b) that every `SkipNode` of the standard chain comes with an error of SOME member (false for an arbitrary
 sub-chain: `ValuesOfCorrectTypeChecker` skips silently at an object literal whose expected type is unknown).
+BOTH ARE PROVED SINCE (fix C06-H5 removed the silent skip): (b) `Props/C06_skipreports.lean: skip_reports`, (a)
+`Props/C06_chain.lean: framed_enterRule`; the statement about the verdict is `chain_silent_iff_alone` /
+`verdict_iff_alone` (chain of the theorems) and `chainM_silent_iff_alone` / `verdict_chain_iff` (the chain /repo runs).
 -/
 
 end PyGql.Props.C06
